@@ -1921,7 +1921,17 @@ func (r *Resolvable) walkArray(arr *Array, value *astjson.Value) bool {
 				value.SetArrayItem(r.astjsonArena, i, astjson.NullValue)
 				continue
 			}
+			if arr.Item.NodeKind() == NodeKindArray && arr.Item.NodeNullable() {
+				// A nullable inner list that failed is an element of this list: it has
+				// no path of its own to null itself through, so the element is nulled here.
+				value.SetArrayItem(r.astjsonArena, i, astjson.NullValue)
+				continue
+			}
 			if arr.Nullable {
+				if len(arr.Path) == 0 {
+					// inner list: see above, the enclosing list nulls the element
+					return err
+				}
 				astjson.SetNull(r.astjsonArena, parent, arr.Path...)
 				return false
 			}
